@@ -2,6 +2,9 @@ import Pyunicorn.Lemmas.EventsSpec
 import Pyunicorn.Lemmas.EventsReal
 import Pyunicorn.Lemmas.EventsQuantile
 import Pyunicorn.Generated.ArithC16
+import Pyunicorn.Generated.StructC16
+import Pyunicorn.Lemmas.EventsObject
+import Pyunicorn.Lemmas.EventsF32
 /-!
 # C16 — Event synchronisation / coincidence follow their counting rules
 
@@ -1051,5 +1054,547 @@ theorem threshold_marks_exactly_value (data : Mat Rat) (nvar : Nat) (x : Rat) (t
 
 example : (makeEventMatrix [[1, 5], [2, 7], [4, 6], [3, 8]] 2 [.value, .quantile]
     [some 2, some (3/4)] [some .above, some .below]).toBool = true := by decide +kernel
+
+/-! ## round 3: the ES analysis matrix over the reals -/
+
+/-- the two directed entries `[i,j]`, `[j,i]` of the ES matrix: both NaN, or two counts over
+one shared squared norm, each count in `[0, sqrt norm]` -/
+def GoodPair (p q : ESEntry) : Prop :=
+  (p = none ∧ q = none) ∨ ∃ a b m, p = some (a, m) ∧ q = some (b, m) ∧
+    (0 ≤ a ∧ a * a ≤ (m : Rat)) ∧ (0 ≤ b ∧ b * b ≤ (m : Rat))
+
+theorem goodPair_symm {p q : ESEntry} (h : GoodPair p q) : GoodPair q p := by
+  rcases h with ⟨h1, h2⟩ | ⟨a, b, m, h1, h2, ha, hb⟩
+  · exact Or.inl ⟨h2, h1⟩
+  · exact Or.inr ⟨b, a, m, h2, h1, hb, ha⟩
+
+theorem esPairEntry_good (ts1 ts2 : List Rat) (bx by_ : List Bool) (tm : Option Rat) (lag : Rat)
+    (h1 : List.Pairwise (· < ·) ts1) (h2 : List.Pairwise (· < ·) ts2) :
+    GoodPair (esPairEntry (esSeries ts1 bx ts2 by_ tm lag)).1
+      (esPairEntry (esSeries ts1 bx ts2 by_ tm lag)).2 := by
+  cases hr : esSeries ts1 bx ts2 by_ tm lag with
+  | nan => exact Or.inl ⟨rfl, rfl⟩
+  | zero => exact Or.inr ⟨0, 0, 1, rfl, rfl, by norm_num, by norm_num⟩
+  | val a b m =>
+    have := esSeries_range ts1 ts2 bx by_ tm lag h1 h2 a b m hr
+    exact Or.inr ⟨a, b, m, rfl, rfl, this.1, this.2⟩
+
+/-- every pair of mirrored entries of `_ndim_event_synchronization` (strictly increasing time
+stamps) is a `GoodPair`: off the diagonal the two return values of one call, on the diagonal
+the initial zero -/
+theorem esMatrix_pair (ts : List Rat) (E : Mat Bool) (n : Nat) (tm : Option Rat) (lag : Rat)
+    (hts : List.Pairwise (· < ·) ts) (i j : Nat) (hi : i < n) (hj : j < n) :
+    GoodPair ((esMatrix ts E n tm lag).get none i j) ((esMatrix ts E n tm lag).get none j i) := by
+  rcases Nat.lt_trichotomy i j with hij | hij | hij
+  · obtain ⟨e1, e2⟩ := esMatrix_entry ts E n tm lag i j hij hj
+    rw [e1, e2]
+    exact esPairEntry_good ts ts _ _ tm lag hts hts
+  · subst hij
+    have : (esMatrix ts E n tm lag).get none i i = some (0, 1) := by
+      unfold esMatrix
+      rw [assemble_entry _ _ _ _ i i hi hi]
+      simp
+    rw [this]
+    exact Or.inr ⟨0, 0, 1, rfl, rfl, by norm_num, by norm_num⟩
+  · obtain ⟨e1, e2⟩ := esMatrix_entry ts E n tm lag j i hij hi
+    rw [e1, e2]
+    exact goodPair_symm (esPairEntry_good ts ts _ _ tm lag hts hts)
+
+/-- **value of every entry of `event_series_analysis(method='ES', symmetrization=s)`** over the
+reals: NaN (a series of the pair has no event), or the symmetrisation table applied to the two
+directed strengths `a/sqrt m`, `b/sqrt m` of the pair, both of which lie in `[0,1]` -/
+theorem esAnalysis_value (ts : List Rat) (E : Mat Bool) (n : Nat) (tm : Option Rat) (lag : Rat)
+    (s : Symm) (hts : List.Pairwise (· < ·) ts) (i j : Nat) (hi : i < n) (hj : j < n) :
+    (esAnalysis ts E n tm lag s).get none i j = none ∨
+    ∃ a b m, (esMatrix ts E n tm lag).get none i j = some (a, m) ∧
+      (esMatrix ts E n tm lag).get none j i = some (b, m) ∧
+      esEntryValue ((esAnalysis ts E n tm lag s).get none i j)
+        = some (symmOpR s (strength a m) (strength b m)) ∧
+      (0 ≤ strength a m ∧ strength a m ≤ 1) ∧ (0 ≤ strength b m ∧ strength b m ≤ 1) := by
+  rw [esAnalysis_entry ts E n tm lag s i j hi hj]
+  rcases esMatrix_pair ts E n tm lag hts i j hi hj with ⟨h1, h2⟩ | ⟨a, b, m, h1, h2, ha, hb⟩
+  · left
+    rw [h1, h2]
+    cases s <;> rfl
+  · right
+    refine ⟨a, b, m, h1, h2, ?_, strength_unit_interval a m ha.1 ha.2,
+      strength_unit_interval b m hb.1 hb.2⟩
+    rw [h1, h2]
+    exact esSymmOp_value s a b m
+
+/-- **range of the ES analysis matrix**: under `directed`, `mean`, `max`, `min` every entry
+that is not NaN lies in `[0,1]` (real square root and division) -/
+theorem esAnalysis_range (ts : List Rat) (E : Mat Bool) (n : Nat) (tm : Option Rat) (lag : Rat)
+    (s : Symm) (hs : s = .directed ∨ s = .mean ∨ s = .max ∨ s = .min)
+    (hts : List.Pairwise (· < ·) ts) (i j : Nat) (hi : i < n) (hj : j < n) (v : ℝ)
+    (hv : esEntryValue ((esAnalysis ts E n tm lag s).get none i j) = some v) :
+    0 ≤ v ∧ v ≤ 1 := by
+  rcases esAnalysis_value ts E n tm lag s hts i j hi hj with h | ⟨a, b, m, _, _, hval, ha, hb⟩
+  · rw [h] at hv; cases hv
+  · rw [hval] at hv
+    injection hv with hv
+    subst hv
+    exact symmOpR_between s hs _ _ 0 1 ha hb
+
+/-- `symmetric` entries (sum of the two directions) lie in `[0,2]`, `antisym` entries
+(difference) in `[-1,1]` -/
+theorem esAnalysis_range_sum_diff (ts : List Rat) (E : Mat Bool) (n : Nat) (tm : Option Rat)
+    (lag : Rat) (hts : List.Pairwise (· < ·) ts) (i j : Nat) (hi : i < n) (hj : j < n) (v : ℝ) :
+    (esEntryValue ((esAnalysis ts E n tm lag .symmetric).get none i j) = some v →
+      0 ≤ v ∧ v ≤ 2) ∧
+    (esEntryValue ((esAnalysis ts E n tm lag .antisym).get none i j) = some v →
+      -1 ≤ v ∧ v ≤ 1) := by
+  constructor
+  · intro hv
+    rcases esAnalysis_value ts E n tm lag .symmetric hts i j hi hj with
+      h | ⟨a, b, m, _, _, hval, ha, hb⟩
+    · rw [h] at hv; cases hv
+    · rw [hval] at hv
+      injection hv with hv
+      subst hv
+      simp only [symmOpR]
+      constructor <;> linarith [ha.1, ha.2, hb.1, hb.2]
+  · intro hv
+    rcases esAnalysis_value ts E n tm lag .antisym hts i j hi hj with
+      h | ⟨a, b, m, _, _, hval, ha, hb⟩
+    · rw [h] at hv; cases hv
+    · rw [hval] at hv
+      injection hv with hv
+      subst hv
+      simp only [symmOpR]
+      constructor <;> linarith [ha.1, ha.2, hb.1, hb.2]
+
+/-- `symmetric`, `mean`, `max`, `min` give a symmetric ES analysis matrix -/
+theorem esAnalysis_symmetric (ts : List Rat) (E : Mat Bool) (n : Nat) (tm : Option Rat) (lag : Rat)
+    (s : Symm) (hs : s = .symmetric ∨ s = .mean ∨ s = .max ∨ s = .min)
+    (hts : List.Pairwise (· < ·) ts) (i j : Nat) (hi : i < n) (hj : j < n) :
+    (esAnalysis ts E n tm lag s).get none i j = (esAnalysis ts E n tm lag s).get none j i := by
+  rw [esAnalysis_entry ts E n tm lag s i j hi hj, esAnalysis_entry ts E n tm lag s j i hj hi]
+  rcases esMatrix_pair ts E n tm lag hts i j hi hj with ⟨h1, h2⟩ | ⟨a, b, m, h1, h2, _, _⟩
+  · rw [h1, h2]
+  · rw [h1, h2]
+    have hc := symmOp_comm s hs a b
+    rcases hs with rfl | rfl | rfl | rfl <;> simp only [esSymmOp, hc]
+
+/-- non-vacuity: a 3-variable event matrix whose ES matrix has proper (non-NaN) entries -/
+example : (esAnalysis (indexTimes 6)
+    [[true, true, false], [true, false, true], [true, true, true], [false, true, true],
+     [true, true, false], [true, true, true]] 3 none 0 .mean).get none 0 1 ≠ none := by
+  decide +kernel
+
+/-! ## round 3: structural tie — slices, axes, boundary counts, window tests and the use of
+`lag` of *every* count statement, for both directions and all window types
+
+`translate/gen_C16.py` reads each statement `np.count_nonzero(np.any(W[r0:r1, c0:c1], axis=k))`
+into a `CountSpec`; `translate/gen_arith.py` reads `W`, the boundary comparisons, `deltaT1/2`,
+the instantaneous switch and `lag = self.__lag`, `taumax = self.__taumax`.  The theorems below
+restate `eca` / `ecaRate` *entirely* in terms of these generated definitions. -/
+
+section structural
+open Pyunicorn.Generated
+
+theorem sliceL_lo {α} (lo : Nat) (l : List α) : sliceL lo 0 l = l.drop lo := by
+  simp [sliceL]
+theorem sliceL_hi {α} (hi : Nat) (l : List α) : sliceL 0 hi l = l.take (l.length - hi) := by
+  simp [sliceL]
+theorem sliceL_all {α} (l : List α) : sliceL 0 0 l = l := by
+  simp [sliceL]
+
+private theorem neg_sub_sub (a b l : Rat) : -(a - b) - l = b - a - l := by grind
+
+/-- the generated window tests as functions of `dst[i,j]` -/
+theorem gen_windows (d lag tm : Rat) :
+    ArithC16.ecaWin12 d lag tm = inWin 0 tm (d - lag) ∧
+    ArithC16.ecaWinT12 d lag tm = inWin 0 tm (d - lag) ∧
+    ArithC16.ecaWin21 d lag tm = inWin 0 tm (-d - lag) ∧
+    ArithC16.ecaWinT21 d lag tm = inWin 0 tm (-d - lag) ∧
+    ArithC16.rateAdvWin12 d lag ArithC16.rateAdvLo (ArithC16.rateAdvHi tm) = inWin 0 tm (d - lag) ∧
+    ArithC16.rateAdvWin21 d lag ArithC16.rateAdvLo (ArithC16.rateAdvHi tm) = inWin 0 tm (-d - lag) ∧
+    ArithC16.rateRetWin12 d lag ArithC16.rateRetLo (ArithC16.rateRetHi tm) = inWin 0 tm (d - lag) ∧
+    ArithC16.rateRetWin21 d lag ArithC16.rateRetLo (ArithC16.rateRetHi tm) = inWin 0 tm (-d - lag) ∧
+    ArithC16.rateSymWin12 d lag (ArithC16.rateSymLo tm) (ArithC16.rateSymHi tm)
+      = inWin (-tm) tm (d - lag) ∧
+    ArithC16.rateSymWin21 d lag (ArithC16.rateSymLo tm) (ArithC16.rateSymHi tm)
+      = inWin (-tm) tm (-d - lag) := by
+  simp only [ArithC16.ecaWin12, ArithC16.ecaWinT12, ArithC16.ecaWin21, ArithC16.ecaWinT21,
+    ArithC16.rateAdvWin12, ArithC16.rateAdvWin21, ArithC16.rateRetWin12, ArithC16.rateRetWin21,
+    ArithC16.rateSymWin12, ArithC16.rateSymWin21, ArithC16.rateAdvLo, ArithC16.rateAdvHi,
+    ArithC16.rateRetLo, ArithC16.rateRetHi, ArithC16.rateSymLo, ArithC16.rateSymHi, inWin]
+  refine ⟨?_, ?_, ?_, ?_, ?_, ?_, ?_, ?_, ?_, ?_⟩ <;> grind
+
+/-- the generated boundary comparisons and instantaneous switches of `_eca_coincidence_rate`
+(all three branches), and the reads of the object's `lag` / `taumax` -/
+theorem gen_rate_boundaries (t h lag tm : Rat) :
+    ArithC16.rateLag lag = lag ∧ ArithC16.rateTaumax tm = tm ∧
+    ArithC16.ndimEsLag lag = lag ∧ ArithC16.ndimEsTaumax tm = tm ∧
+    ArithC16.rateNotInstantAdv lag tm = !(decide (lag = 0) && decide (tm = 0)) ∧
+    ArithC16.rateNotInstantRet lag tm = !(decide (lag = 0) && decide (tm = 0)) ∧
+    ArithC16.rateNotInstantSym lag tm = !(decide (lag = 0) && decide (tm = 0)) ∧
+    ArithC16.rateAdvEarly1 t h lag (ArithC16.rateAdvHi tm) = decide (t ≤ h + (lag + tm)) ∧
+    ArithC16.rateAdvEarly2 t h lag (ArithC16.rateAdvHi tm) = decide (t ≤ h + (lag + tm)) ∧
+    ArithC16.rateRetLate1 t h lag (ArithC16.rateRetHi tm) = decide (h - (lag + tm) ≤ t) ∧
+    ArithC16.rateRetLate2 t h lag (ArithC16.rateRetHi tm) = decide (h - (lag + tm) ≤ t) ∧
+    ArithC16.rateSymEarly1 t h lag (ArithC16.rateSymHi tm) = decide (t ≤ h + (lag + tm)) ∧
+    ArithC16.rateSymEarly2 t h lag (ArithC16.rateSymHi tm) = decide (t ≤ h + (lag + tm)) ∧
+    ArithC16.rateSymLate1 t h lag (ArithC16.rateSymLo tm) = decide (h - (lag + tm) ≤ t) ∧
+    ArithC16.rateSymLate2 t h lag (ArithC16.rateSymLo tm) = decide (h - (lag + tm) ≤ t) := by
+  simp only [ArithC16.rateLag, ArithC16.rateTaumax, ArithC16.ndimEsLag, ArithC16.ndimEsTaumax,
+    ArithC16.rateNotInstantAdv, ArithC16.rateNotInstantRet, ArithC16.rateNotInstantSym,
+    ArithC16.rateAdvEarly1, ArithC16.rateAdvEarly2, ArithC16.rateRetLate1, ArithC16.rateRetLate2,
+    ArithC16.rateSymEarly1, ArithC16.rateSymEarly2, ArithC16.rateSymLate1, ArithC16.rateSymLate2,
+    ArithC16.rateAdvHi, ArithC16.rateRetHi, ArithC16.rateSymHi, ArithC16.rateSymLo]
+  refine ⟨?_, ?_, ?_, ?_, ?_, ?_, ?_, ?_, ?_, ?_, ?_, ?_, ?_, ?_, ?_⟩ <;> first | trivial | grind
+
+/-- `nStart` / `nEnd` are `len(e[cmp(e, e[0])])` / `len(e[cmp(e, e[-1])])` -/
+theorem nStart_countRef (e : List Rat) (c : Rat) :
+    nStart e c = countRef (fun t h => decide (t ≤ h + c)) e.head? e := by
+  unfold nStart countRef; cases e.head? <;> rfl
+theorem nEnd_countRef (e : List Rat) (c : Rat) :
+    nEnd e c = countRef (fun t h => decide (h - c ≤ t)) e.getLast? e := by
+  unfold nEnd countRef; cases e.getLast? <;> rfl
+
+/-- the reference event named by the structural translator: index `0` / `-1` of the array -/
+def refEvent (e1 e2 : List Rat) (spec : String × Int) : Option Rat :=
+  let e := if spec.1 = "e1" then e1 else e2
+  if spec.2 = 0 then e.head? else e.getLast?
+def refArray (e1 e2 : List Rat) (spec : String × Int) : List Rat :=
+  if spec.1 = "e1" then e1 else e2
+
+/-- **`event_coincidence_analysis`, statement by statement.**  Boundary counts (`len` of the
+array filtered by the generated comparison against the generated reference element), the four
+counts (generated slices / axes over the generated window tests of `dst`), and the four
+quotients are the source's. -/
+theorem gen_eca_struct (e1 e2 : List Rat) (tm lag : Rat) :
+    eca e1 e2 tm lag =
+      (if e1 = [] ∨ e2 = [] then none else
+       let inst : Bool := !ArithC16.ecaNotInstant lag tm
+       let bc (spec : String × Int) (cmp : Rat → Rat → Bool) : Nat :=
+         if inst then 0 else countRef cmp (refEvent e1 e2 spec) (refArray e1 e2 spec)
+       let n11 := bc StructC16.ecaN11 fun t h => ArithC16.ecaEarly1 t h lag tm
+       let n12 := bc StructC16.ecaN12 fun t h => ArithC16.ecaLate1 t h lag tm
+       let n21 := bc StructC16.ecaN21 fun t h => ArithC16.ecaEarly2 t h lag tm
+       let n22 := bc StructC16.ecaN22 fun t h => ArithC16.ecaLate2 t h lag tm
+       let nf := bndVal n11 n12 n21 n22
+       let l1 := e1.length
+       let l2 := e2.length
+       let p12 := evalCount StructC16.ecaPrec12 (fun d => ArithC16.ecaWin12 d lag tm) e1 e2 nf
+       let t12 := evalCount StructC16.ecaTrig12 (fun d => ArithC16.ecaWinT12 d lag tm) e1 e2 nf
+       let p21 := evalCount StructC16.ecaPrec21 (fun d => ArithC16.ecaWin21 d lag tm) e1 e2 nf
+       let t21 := evalCount StructC16.ecaTrig21 (fun d => ArithC16.ecaWinT21 d lag tm) e1 e2 nf
+       some {
+         prec12 := mkRate (ArithC16.ecaRet0 p12 t12 p21 t21 l1 l2 n11 n12 n21 n22) ((l1 : Int) - n11)
+         trig12 := mkRate (ArithC16.ecaRet1 p12 t12 p21 t21 l1 l2 n11 n12 n21 n22) ((l2 : Int) - n22)
+         prec21 := mkRate (ArithC16.ecaRet2 p12 t12 p21 t21 l1 l2 n11 n12 n21 n22) ((l2 : Int) - n21)
+         trig21 := mkRate (ArithC16.ecaRet3 p12 t12 p21 t21 l1 l2 n11 n12 n21 n22) ((l1 : Int) - n12) }) := by
+  have k := fun t h => gen_eca_kernel lag tm t h 0 0
+  have w := fun d => gen_windows d lag tm
+  rw [gen_eca_rates]
+  simp only [StructC16.ecaN11, StructC16.ecaN12, StructC16.ecaN21, StructC16.ecaN22,
+    StructC16.ecaPrec12, StructC16.ecaTrig12, StructC16.ecaPrec21, StructC16.ecaTrig21,
+    refEvent, refArray, evalCount, bndVal, sliceL_lo, sliceL_hi, sliceL_all,
+    (k _ _).2.1, (k _ _).2.2.1, (k _ _).2.2.2.1, (k _ _).2.2.2.2.1,
+    (w _).1, (w _).2.1, (w _).2.2.1, (w _).2.2.2.1, neg_sub_sub, prec, trig]
+  rfl
+
+/-- **`_eca_coincidence_rate`, statement by statement, for the three window types** — the
+matrix path: `lag` / `taumax` are the object's fields, both directions use the generated
+window test of `dst` (`dst - lag` for X→Y, `-dst - lag` for Y→X), the generated slices and
+axes, the generated boundary counts, and the generated quotients. -/
+theorem gen_ecaRate_struct (w : Window) (e1 e2 : List Rat) (objTaumax objLag : Rat) :
+    ecaRate w e1 e2 objTaumax objLag =
+      (if e1 = [] ∨ e2 = [] then none else
+       let lag := ArithC16.rateLag objLag
+       let tm := ArithC16.rateTaumax objTaumax
+       let l1 := e1.length
+       let l2 := e2.length
+       let bc (inst : Bool) (spec : String × Int) (cmp : Rat → Rat → Bool) : Nat :=
+         if inst then 0 else countRef cmp (refEvent e1 e2 spec) (refArray e1 e2 spec)
+       match w with
+       | .advanced =>
+         let inst : Bool := !ArithC16.rateNotInstantAdv lag tm
+         let hi := ArithC16.rateAdvHi tm
+         let n11 := bc inst StructC16.rateAdvN11 fun t h => ArithC16.rateAdvEarly1 t h lag hi
+         let n21 := bc inst StructC16.rateAdvN21 fun t h => ArithC16.rateAdvEarly2 t h lag hi
+         let nf := bndVal n11 0 n21 0
+         let c12 := evalCount StructC16.rateAdv12
+           (fun d => ArithC16.rateAdvWin12 d lag ArithC16.rateAdvLo hi) e1 e2 nf
+         let c21 := evalCount StructC16.rateAdv21
+           (fun d => ArithC16.rateAdvWin21 d lag ArithC16.rateAdvLo hi) e1 e2 nf
+         some (mkRate (ArithC16.rateRet0 c12 c21 l1 l2 n11 0 n21 0) ((l1 : Int) - n11 - 0),
+               mkRate (ArithC16.rateRet1 c12 c21 l1 l2 n11 0 n21 0) ((l2 : Int) - n21 - 0))
+       | .retarded =>
+         let inst : Bool := !ArithC16.rateNotInstantRet lag tm
+         let hi := ArithC16.rateRetHi tm
+         let n12 := bc inst StructC16.rateRetN12 fun t h => ArithC16.rateRetLate1 t h lag hi
+         let n22 := bc inst StructC16.rateRetN22 fun t h => ArithC16.rateRetLate2 t h lag hi
+         let nf := bndVal 0 n12 0 n22
+         let c12 := evalCount StructC16.rateRet12
+           (fun d => ArithC16.rateRetWin12 d lag ArithC16.rateRetLo hi) e1 e2 nf
+         let c21 := evalCount StructC16.rateRet21
+           (fun d => ArithC16.rateRetWin21 d lag ArithC16.rateRetLo hi) e1 e2 nf
+         some (mkRate (ArithC16.rateRetardedRet0 c12 c21 l1 l2 0 n12 0 n22) ((l2 : Int) - n22),
+               mkRate (ArithC16.rateRetardedRet1 c12 c21 l1 l2 0 n12 0 n22) ((l1 : Int) - n12))
+       | .symmetric =>
+         let inst : Bool := !ArithC16.rateNotInstantSym lag tm
+         let lo := ArithC16.rateSymLo tm
+         let hi := ArithC16.rateSymHi tm
+         let n11 := bc inst StructC16.rateSymN11 fun t h => ArithC16.rateSymEarly1 t h lag hi
+         let n12 := bc inst StructC16.rateSymN12 fun t h => ArithC16.rateSymLate1 t h lag lo
+         let n21 := bc inst StructC16.rateSymN21 fun t h => ArithC16.rateSymEarly2 t h lag hi
+         let n22 := bc inst StructC16.rateSymN22 fun t h => ArithC16.rateSymLate2 t h lag lo
+         let nf := bndVal n11 n12 n21 n22
+         let c12 := evalCount StructC16.rateSym12
+           (fun d => ArithC16.rateSymWin12 d lag lo hi) e1 e2 nf
+         let c21 := evalCount StructC16.rateSym21
+           (fun d => ArithC16.rateSymWin21 d lag lo hi) e1 e2 nf
+         some (mkRate (ArithC16.rateRet0 c12 c21 l1 l2 n11 n12 n21 n22) ((l1 : Int) - n11 - n12),
+               mkRate (ArithC16.rateRet1 c12 c21 l1 l2 n11 n12 n21 n22) ((l2 : Int) - n21 - n22))) := by
+  have b := fun t h => gen_rate_boundaries t h objLag objTaumax
+  have wd := fun d => gen_windows d objLag objTaumax
+  have hi : ∀ x : Bool, (!(!x)) = x := fun x => by cases x <;> rfl
+  rw [gen_ecaRate_rates]
+  have hinst : (!ArithC16.ecaNotInstant objLag objTaumax)
+      = (decide (objLag = 0) && decide (objTaumax = 0)) := by
+    rw [(gen_eca_kernel objLag objTaumax 0 0 0 0).1, Bool.not_not]
+  cases w <;>
+  simp only [ArithC16.rateLag, ArithC16.rateTaumax, hinst,
+    StructC16.rateAdvN11, StructC16.rateAdvN21, StructC16.rateRetN12, StructC16.rateRetN22,
+    StructC16.rateSymN11, StructC16.rateSymN12, StructC16.rateSymN21, StructC16.rateSymN22,
+    StructC16.rateAdv12, StructC16.rateAdv21, StructC16.rateRet12, StructC16.rateRet21,
+    StructC16.rateSym12, StructC16.rateSym21,
+    refEvent, refArray, evalCount, bndVal, sliceL_lo, sliceL_hi, sliceL_all,
+    (b 0 0).2.2.2.2.1, (b 0 0).2.2.2.2.2.1, (b 0 0).2.2.2.2.2.2.1, (b _ _).2.2.2.2.2.2.2.1,
+    (b _ _).2.2.2.2.2.2.2.2.1, (b _ _).2.2.2.2.2.2.2.2.2.1, (b _ _).2.2.2.2.2.2.2.2.2.2.1,
+    (b _ _).2.2.2.2.2.2.2.2.2.2.2.1, (b _ _).2.2.2.2.2.2.2.2.2.2.2.2.1,
+    (b _ _).2.2.2.2.2.2.2.2.2.2.2.2.2.1, (b _ _).2.2.2.2.2.2.2.2.2.2.2.2.2.2,
+    (wd _).2.2.2.2.1, (wd _).2.2.2.2.2.1, (wd _).2.2.2.2.2.2.1, (wd _).2.2.2.2.2.2.2.1,
+    (wd _).2.2.2.2.2.2.2.2.1, (wd _).2.2.2.2.2.2.2.2.2, neg_sub_sub, hi, prec, trig] <;>
+  rfl
+
+/-- pairs visited by `for i in range(olo, ohi): for j in range(ilo i, ihi i)` (indices of an
+`n × n` array) -/
+def loopPairs (n : Nat) (olo ohi : Int) (ilo ihi : Int → Int) : List (Nat × Nat) :=
+  ((List.range n).filter fun (i : Nat) => decide (olo ≤ (i : Int) ∧ (i : Int) < ohi)).flatMap
+    fun (i : Nat) =>
+      ((List.range n).filter fun (j : Nat) =>
+        decide (ilo (i : Int) ≤ (j : Int) ∧ (j : Int) < ihi (i : Int))).map fun j => (i, j)
+
+theorem loopPairs_upper (n : Nat) (olo ohi : Int) (ilo ihi : Int → Int)
+    (h1 : olo = 0) (h2 : ohi = (n : Int)) (h3 : ∀ i, ilo i = i + 1) (h4 : ∀ i, ihi i = (n : Int)) :
+    upperPairs n = loopPairs n olo ohi ilo ihi := by
+  subst h1 h2
+  have e3 : ilo = fun i => i + 1 := funext h3
+  have e4 : ihi = fun _ => (n : Int) := funext h4
+  subst e3 e4
+  have ho : ((List.range n).filter fun (i : Nat) =>
+      decide ((0 : Int) ≤ (i : Int) ∧ (i : Int) < (n : Int))) = List.range n := by
+    apply List.filter_eq_self.2
+    intro i hi
+    have := List.mem_range.1 hi
+    simp only [decide_eq_true_eq]
+    omega
+  have hin : ∀ i : Nat, ((List.range n).filter fun (j : Nat) =>
+      decide (((i : Int) + 1) ≤ (j : Int) ∧ (j : Int) < (n : Int)))
+      = (List.range n).filter (fun j => decide (i < j)) := by
+    intro i
+    apply List.filter_congr
+    intro j hj
+    have := List.mem_range.1 hj
+    simp only [decide_eq_decide]
+    omega
+  unfold upperPairs loopPairs
+  rw [ho]
+  congr 1
+  funext i
+  rw [hin i]
+
+/-- **the two `_ndim_*` workers**: loop bounds, the two stores per iteration, the columns and
+the object fields passed to the pair function are the source's; the ES worker is memoised,
+the ECA worker is not -/
+theorem gen_ndim_loops (n : Nat) :
+    upperPairs n = loopPairs n (StructC16.esOuterLo n) (StructC16.esOuterHi n)
+      (StructC16.esInnerLo n) (StructC16.esInnerHi n) ∧
+    upperPairs n = loopPairs n (StructC16.ecaOuterLo n) (StructC16.ecaOuterHi n)
+      (StructC16.ecaInnerLo n) (StructC16.ecaInnerHi n) ∧
+    StructC16.esStores = [(0, 1), (1, 0)] ∧ StructC16.ecaStores = [(0, 1), (1, 0)] ∧
+    StructC16.esCols = [0, 1] ∧ StructC16.ecaCols = [0, 1] ∧
+    StructC16.esKeywords = [("lag", "lag"), ("taumax", "taumax"), ("ts1", "timestamps"),
+      ("ts2", "timestamps")] ∧
+    StructC16.ecaKeywords = [("ts1", "timestamps"), ("ts2", "timestamps"),
+      ("window_type", "window_type")] ∧
+    StructC16.esWorkerCached = true ∧ StructC16.ecaWorkerCached = false :=
+  ⟨loopPairs_upper n _ _ _ _ rfl rfl (fun _ => rfl) (fun _ => rfl),
+   loopPairs_upper n _ _ _ _ rfl rfl (fun _ => rfl) (fun _ => rfl),
+   rfl, rfl, rfl, rfl, by decide, by decide, rfl, rfl⟩
+
+/-! ### the symmetrisation helpers -/
+
+def symmName : Symm → String
+  | .directed => "directed" | .symmetric => "symmetric" | .antisym => "antisym"
+  | .mean => "mean" | .max => "max" | .min => "min"
+
+def symmExprOf : Symm → SymExpr
+  | .directed => .arg | .symmetric => .add | .antisym => .sub
+  | .mean => .mean | .max => .max | .min => .min
+
+theorem evalSym_symmOp (s : Symm) (a b : Rat) : evalSym (symmExprOf s) a b = symmOp s a b := by
+  cases s <;> rfl
+
+/-- what `self.symmetrization_options[s]` does, as read from the source: the helper returns
+the table's expression over `(matrix, matrix.T)`; only `directed` returns its argument, all
+others allocate; **none stores into its argument** -/
+theorem gen_symm_table (s : Symm) :
+    StructC16.symmOptions.lookup (symmName s)
+      = some ⟨symmExprOf s, decide (s ≠ .directed), false⟩ := by
+  cases s <;> decide
+
+/-- the helper the object uses for option `s` -/
+def helperOf (s : Symm) : SymHelper :=
+  (StructC16.symmOptions.lookup (symmName s)).getD ⟨.arg, false, true⟩
+
+/-- the helper table read from the source is the model's `stdHelper` (used by the driver) -/
+theorem gen_helperOf (s : Symm) : helperOf s = stdHelper s := by
+  unfold helperOf
+  rw [gen_symm_table]
+  cases s <;> rfl
+
+/-- which options `event_series_analysis` accepts per method: all six for ES; exactly the
+four of `ecaAnalysis_range` for ECA; the three window types -/
+theorem gen_symm_allowed (s : Symm) (w : Window) :
+    symmName s ∈ StructC16.esSymmAllowed ∧
+    (symmName s ∈ StructC16.ecaSymmAllowed ↔
+      (s = .directed ∨ s = .mean ∨ s = .max ∨ s = .min)) ∧
+    (match w with | .advanced => "advanced" | .retarded => "retarded" | .symmetric => "symmetric")
+      ∈ StructC16.windowAllowed := by
+  refine ⟨by cases s <;> decide, by cases s <;> decide, by cases w <;> decide⟩
+
+end structural
+
+/-! ## round 3: histories on one object (the memoised directed matrix is handed out by
+reference; the helpers of the *current source* never store into it) -/
+
+/-- **history independence of `event_series_analysis(method='ES')`.**  For every sequence of
+requests on one `EventSeries` object — the directed matrix computed once, memoised, and
+passed *by reference* to the helper the source selects — every array returned during the
+history holds, at the end of the history, exactly the symmetrisation of the directed matrix
+that a fresh object returns for that request; nothing already handed out is changed.
+(The hypothesis that no helper stores into its argument is `gen_symm_table`, i.e. a fact
+about the current source text; seeds C16-2, C16-3 falsify it.) -/
+theorem es_history_independent (ts : List Rat) (E : Mat Bool) (n : Nat) (tm : Option Rat)
+    (lag : Rat) (hist : List Symm) :
+    let compute := esMatrix ts E n tm lag
+    let apply := esApply n
+    let r := runHistory compute apply helperOf freshObj hist
+    List.Forall₂ (fun s a => r.1.heap[a]? = some (apply s compute)) hist r.2 := by
+  intro compute apply r
+  have hh : ∀ s, helperOf s = ⟨symmExprOf s, decide (s ≠ .directed), false⟩ := by
+    intro s
+    unfold helperOf
+    rw [gen_symm_table]
+    rfl
+  refine (runHistory_ok compute apply helperOf ?_ ?_ hist freshObj (freshObj_ok compute)).2.1
+  · intro s; rw [hh]
+  · intro s hf m
+    rw [hh] at hf
+    simp only [decide_eq_false_iff_not, ne_eq, not_not] at hf
+    subst hf
+    rfl
+
+/-- for `directed` the array handed out *is* the matrix (`symmetrize` with `directed` would be
+the same values): the model's `apply` agrees with `esAnalysis` entry-wise -/
+theorem es_history_values (ts : List Rat) (E : Mat Bool) (n : Nat) (tm : Option Rat) (lag : Rat)
+    (s : Symm) (i j : Nat) (hi : i < n) (hj : j < n) :
+    (esApply n s (esMatrix ts E n tm lag)).get none i j
+      = (esAnalysis ts E n tm lag s).get none i j := by
+  unfold esApply
+  by_cases hs : s = .directed
+  · subst hs
+    simp only [if_true]
+    rw [esAnalysis_entry ts E n tm lag .directed i j hi hj]
+    rfl
+  · simp only [hs, if_false]
+    rfl
+
+/-- the hypothesis matters: a helper that stores its result into its argument (`out=matrix`,
+seeds C16-2, C16-3) corrupts what a later `directed` request returns -/
+example :
+    let hp : Symm → SymHelper := fun s => if s = .min then ⟨.min, true, true⟩ else helperOf s
+    let apply : Symm → Nat → Nat := fun s m => if s = .min then 0 else m
+    let r := runHistory 7 apply hp freshObj [.min, .directed]
+    r.1.heap[r.2.getD 1 0]? = some 0 ∧ apply .directed 7 = 7 := by
+  decide
+
+/-! ## round 3: the float32 quotient -/
+
+/-- **the returned float32 rates are rates**: the float32 nearest to each quotient of
+`event_coincidence_analysis` lies in `[0,1]` and within `2⁻²⁴` (relative) of the exact rate -/
+theorem eca_f32_range (e1 e2 : List Rat) (tm lag : Rat) (o : EcaOut)
+    (h : eca e1 e2 tm lag = some o) (r : Rat)
+    (hr : o.prec12 = .val r ∨ o.trig12 = .val r ∨ o.prec21 = .val r ∨ o.trig21 = .val r) :
+    (0 ≤ rn24 r ∧ rn24 r ≤ 1) ∧ |rn24 r - r| ≤ r / 2 ^ 24 := by
+  obtain ⟨h0, h1⟩ := eca_range e1 e2 tm lag o h r hr
+  exact ⟨⟨rn24_nonneg r, rn24_le_one r h1⟩, rn24_err r h0⟩
+
+/-- the same for the three window types of `_eca_coincidence_rate` -/
+theorem ecaRate_f32_range (w : Window) (e1 e2 : List Rat) (tm lag : Rat) (a b : Rate)
+    (h : ecaRate w e1 e2 tm lag = some (a, b)) (r : Rat) (hr : a = .val r ∨ b = .val r) :
+    (0 ≤ rn24 r ∧ rn24 r ≤ 1) ∧ |rn24 r - r| ≤ r / 2 ^ 24 := by
+  obtain ⟨h0, h1⟩ := ecaRate_range w e1 e2 tm lag a b h r hr
+  exact ⟨⟨rn24_nonneg r, rn24_le_one r h1⟩, rn24_err r h0⟩
+
+/-- `rateF32` is what the driver prints; exact on the rates `0` and `1` -/
+theorem rateF32_spec (r : Rat) :
+    rateF32 (.val r) = .val (rn24 r) ∧ rateF32 .nan = .nan ∧ rn24 0 = 0 ∧ rn24 1 = 1 :=
+  ⟨rfl, rfl, rn24_zero_one.1, rn24_zero_one.2⟩
+
+theorem mat_get_map' {α β} (M : Mat α) (f : α → β) (d : α) (d' : β) (hd : f d = d') (i j : Nat) :
+    Mat.get (M.map fun row => row.map f) d' i j = f (M.get d i j) := by
+  simp only [Mat.get, List.getD_eq_getElem?_getD, List.getElem?_map]
+  cases hM : M[i]? with
+  | none => simp [hd]
+  | some row =>
+    simp only [Option.map_some, Option.getD_some, List.getElem?_map]
+    cases hr : row[j]? with
+    | none => simp [hd]
+    | some v => simp
+
+/-- **range of the ECA analysis matrix in floating point**: float32 rates stored in the float64
+matrix and symmetrised by `directed`/`mean`/`max`/`min` — every entry is NaN or in `[0,1]` -/
+theorem ecaAnalysisF32_range (w : Window) (ts : List Rat) (E : Mat Bool) (n : Nat) (tm lag : Rat)
+    (s : Symm) (hs : s = .directed ∨ s = .mean ∨ s = .max ∨ s = .min)
+    (A : Mat (Option Rat)) (h : ecaAnalysisF32 w ts E n tm lag s = some A)
+    (i j : Nat) (hi : i < n) (hj : j < n) (r : Rat) (hr : A.get none i j = some r) :
+    0 ≤ r ∧ r ≤ 1 := by
+  unfold ecaAnalysisF32 at h
+  cases hM : ecaMatrix w ts E n tm lag with
+  | none => simp [hM] at h
+  | some M =>
+    simp only [hM, Option.map_some, Option.some.injEq] at h
+    subst h
+    rw [symmetrize_entry n none none (symmOpN s) _ i j hi hj,
+      mat_get_map' M (fun e => e.map rn24) none none rfl i j,
+      mat_get_map' M (fun e => e.map rn24) none none rfl j i] at hr
+    have rng : ∀ a b, a < n → b < n → ∀ v, (M.get none a b).map rn24 = some v → 0 ≤ v ∧ v ≤ 1 := by
+      intro a b ha hb v hv
+      cases hx : M.get none a b with
+      | none => rw [hx] at hv; cases hv
+      | some x =>
+        rw [hx] at hv
+        simp only [Option.map_some, Option.some.injEq] at hv
+        subst hv
+        have := ecaMatrix_range w ts E n tm lag M hM a b ha hb x hx
+        exact ⟨rn24_nonneg x, rn24_le_one x this.2⟩
+    rcases hs with rfl | hs
+    · exact rng i j hi hj r hr
+    · cases ha : (M.get none i j).map rn24 with
+      | none => rw [ha] at hr; rcases hs with rfl | rfl | rfl <;> cases hr
+      | some a =>
+        cases hb : (M.get none j i).map rn24 with
+        | none => rw [ha, hb] at hr; rcases hs with rfl | rfl | rfl <;> cases hr
+        | some b =>
+          rw [ha, hb, (symmOpN_spec s a b).1] at hr
+          simp only [Option.some.injEq] at hr
+          subst hr
+          exact symmOp_between s hs a b 0 1 (rng i j hi hj a ha) (rng j i hj hi b hb)
 
 end Pyunicorn.Events
